@@ -70,7 +70,7 @@ type RestReg struct {
 // Step is a registration round (config refresh, registrations, preparations) or a
 // REST delivery.
 type Step struct {
-	Kind      string   `json:"kind"` // round | rest
+	Kind      string   `json:"kind"` // round | rest | overlap
 	Epoch     uint64   `json:"epoch,omitempty"`
 	Source    Source   `json:"source"`
 	RelayFail []string `json:"relay_fail,omitempty"` // per relay: "" | 500 | 400 | drop | slow
@@ -81,6 +81,12 @@ type Step struct {
 	// when the preparations are updated: "" / "far" (half an epoch ahead), "2s", "50ms",
 	// or "past" (the epoch was read just before its end, the update runs just after).
 	Boundary string `json:"boundary,omitempty"`
+	// Overlap steps (kind "overlap"): a scheduled round is kept in flight by relay
+	// HoldRelay (its first request of the step is held by the harness) while the
+	// exported SubmitValidatorRegistrations is called for the validators BSet; the held
+	// request is released after that call has returned.
+	HoldRelay int   `json:"hold_relay,omitempty"`
+	BSet      []int `json:"b_set,omitempty"`
 	// ProviderErr: the validating-accounts provider answers with an error during this round.
 	ProviderErr bool `json:"provider_err,omitempty"`
 	// Direct: the registrations of this round are requested through the exported
@@ -144,7 +150,7 @@ func optGas(t *rapid.T, pct int, label string) *uint64 {
 }
 
 func drawKey(t *rapid.T, nV int, label string) int {
-	if chance(t, label+"Stranger?", 2) {
+	if chance(t, label+"Stranger?", 3) {
 		return maxValidators + rapid.IntRange(0, nStrangers-1).Draw(t, label+"Stranger")
 	}
 	return rapid.IntRange(0, nV-1).Draw(t, label)
@@ -398,7 +404,11 @@ func genCase(t *rapid.T) Case {
 		if i > 0 {
 			epoch += rapid.SampledFrom([]uint64{0, 0, 1, 1, 1, 2, 7}).Draw(t, "epochInc")
 		}
-		c.Steps = append(c.Steps, Step{Kind: "round", Epoch: epoch})
+		kind := "round"
+		if i > 0 && chance(t, "overlap?", 3) {
+			kind = "overlap"
+		}
+		c.Steps = append(c.Steps, Step{Kind: kind, Epoch: epoch})
 		roundEpochs = append(roundEpochs, epoch)
 	}
 	for i := 0; i < nV; i++ {
@@ -435,15 +445,39 @@ func genCase(t *rapid.T) Case {
 	lastDoc := -1
 	for i := range c.Steps {
 		s := &c.Steps[i]
-		if !calm {
+		if !calm && s.Kind != "overlap" {
 			s.RelayFail = genMask(t, c.NRelays, 25, []string{"500", "400", "drop", "slow"}, "relayFail")
+		}
+		if s.Kind == "overlap" {
+			s.HoldRelay = rapid.IntRange(0, c.NRelays-1).Draw(t, "holdRelay")
+			for v := 0; v < nV; v++ {
+				if rapid.Bool().Draw(t, "inB") {
+					s.BSet = append(s.BSet, v)
+				}
+			}
+			if len(s.BSet) == 0 {
+				s.BSet = []int{rapid.IntRange(0, nV-1).Draw(t, "bOne")}
+			}
+			d := rapid.IntRange(0, nDocs-1).Draw(t, "overlapDoc")
+			lastDoc = d
+			s.Source = Source{Kind: "doc", Doc: d}
+			continue
 		}
 		if s.Kind == "rest" {
 			n := rapid.IntRange(1, 4).Draw(t, "restRegs")
+			// often a batch of several foreign validators (their settings may differ by public key)
+			foreignBatch := chance(t, "foreignBatch", 6)
+			firstForeign := rapid.IntRange(0, nStrangers-1).Draw(t, "firstForeign")
+			if foreignBatch && n < nStrangers {
+				n = nStrangers
+			}
 			for j := 0; j < n; j++ {
 				k := rapid.IntRange(0, nV+nStrangers-1).Draw(t, "restKey")
 				if k >= nV {
 					k = maxValidators + (k - nV)
+				}
+				if foreignBatch && j < nStrangers {
+					k = maxValidators + (firstForeign+j)%nStrangers
 				}
 				s.Regs = append(s.Regs, RestReg{
 					Key:       k,
@@ -565,7 +599,17 @@ func validate(c *Case) error {
 	var last uint64
 	for _, s := range c.Steps {
 		switch s.Kind {
-		case "round":
+		case "round", "overlap":
+			if s.Kind == "overlap" {
+				if s.HoldRelay < 0 || s.HoldRelay >= c.NRelays || len(s.BSet) == 0 || s.ProviderErr || s.Direct {
+					return fmt.Errorf("bad overlap step")
+				}
+				for _, v := range s.BSet {
+					if v < 0 || v >= len(c.Validators) {
+						return fmt.Errorf("bad validator in overlap step")
+					}
+				}
+			}
 			if s.Epoch < last {
 				return fmt.Errorf("epochs must not decrease")
 			}
@@ -589,6 +633,12 @@ func validate(c *Case) error {
 // ---------------------------------------------------------------------------
 // World: everything built for one case.
 
+// overlapObs is what happened in an overlap step.
+type overlapObs struct {
+	Reached bool   // the scheduled round was in flight (held at the relay) during the exported call
+	ErrB    string // error returned by the exported call, if any
+}
+
 type world struct {
 	c  *Case
 	mu sync.Mutex
@@ -606,6 +656,7 @@ type world struct {
 	provider *accountsD
 
 	restSent map[int][]RestReg // step -> registrations actually delivered
+	overlaps map[int]*overlapObs
 	notes    []string
 }
 
@@ -823,7 +874,7 @@ func run(c *Case) (*world, error) {
 	viper.Reset()
 	viper.SetDefault("timeout", 20*time.Second)
 
-	w := &world{c: c, signFail: map[int]int{}, signSeen: map[int]int{}, restSent: map[int][]RestReg{}}
+	w := &world{c: c, signFail: map[int]int{}, signSeen: map[int]int{}, restSent: map[int][]RestReg{}, overlaps: map[int]*overlapObs{}}
 	if err := w.buildAccounts(); err != nil {
 		return nil, fmt.Errorf("cannot build accounts: %w", err)
 	}
@@ -957,7 +1008,33 @@ func run(c *Case) (*world, error) {
 			if !sched.Fire(fetchJob) {
 				return nil, fmt.Errorf("periodic job vanished")
 			}
-			if s.Direct && !s.ProviderErr {
+			if s.Kind == "overlap" {
+				hold := w.relays[s.HoldRelay]
+				arrived := hold.armHold()
+				doneA := make(chan struct{})
+				go func() {
+					defer close(doneA)
+					sched.Fire(submitJob)
+				}()
+				obs := &overlapObs{}
+				select {
+				case <-arrived:
+					obs.Reached = true
+				case <-doneA:
+					// the round had nothing for that relay: no overlap, the calls are sequential
+					hold.releaseHold()
+				}
+				accounts := map[phase0.ValidatorIndex]e2wtypes.Account{}
+				for _, v := range s.BSet {
+					accounts[phase0.ValidatorIndex(c.Validators[v].Index)] = w.accounts[v]
+				}
+				if err := relaySvc.SubmitValidatorRegistrations(ctx, accounts); err != nil {
+					obs.ErrB = err.Error()
+				}
+				hold.releaseHold()
+				<-doneA
+				w.overlaps[i] = obs
+			} else if s.Direct && !s.ProviderErr {
 				if err := relaySvc.SubmitValidatorRegistrations(ctx, w.provider.active(s.Epoch+1)); err != nil {
 					w.notes = append(w.notes, fmt.Sprintf("step %d: SubmitValidatorRegistrations: %v", i, err))
 				}
@@ -1063,7 +1140,7 @@ func restSig(seed int, key int) [96]byte {
 // vouch could learn its validators (-1 if none).
 func lastRoundBefore(c *Case, i int) int {
 	for j := i - 1; j >= 0; j-- {
-		if c.Steps[j].Kind == "round" && !c.Steps[j].ProviderErr {
+		if (c.Steps[j].Kind == "round" || c.Steps[j].Kind == "overlap") && !c.Steps[j].ProviderErr {
 			return j
 		}
 	}
@@ -1078,6 +1155,19 @@ func (w *world) deliverREST(ctx context.Context, svc *blockrelay.Service, i int)
 	controlled := map[phase0.ValidatorIndex]e2wtypes.Account{}
 	if lr >= 0 {
 		controlled = w.provider.active(w.c.Steps[lr].Epoch + 1)
+		if w.c.Steps[lr].Kind == "overlap" {
+			// Two submissions ran side by side; whichever finished generating last names the
+			// controlled set.  Validators in both sets are controlled either way.
+			inB := map[uint64]bool{}
+			for _, v := range w.c.Steps[lr].BSet {
+				inB[w.c.Validators[v].Index] = true
+			}
+			for idx := range controlled {
+				if !inB[uint64(idx)] {
+					delete(controlled, idx)
+				}
+			}
+		}
 	}
 	var send []RestReg
 	var wire []map[string]any
@@ -1131,6 +1221,7 @@ type stats struct {
 	unresolvableNextToOthers                                                                bool
 	providerErr, direct, earlyThenNormal                                                    bool
 	nearBoundary, slowNearBoundary                                                          bool
+	overlap, overlapReached, overlapOtherSet                                                bool
 	inactiveSeen, emptyRound                                                                bool
 	regsChecked                                                                             int
 }
@@ -1358,13 +1449,38 @@ func judge(c *Case, w *world) ([]verdict, stats) {
 			lastActive = active
 		}
 		_ = lastActive
+		// due: validators whose registrations are requested in this step; need/most: how
+		// many requests must / may have produced a registration per relay.
+		due, need, most := map[int]bool{}, map[int]int{}, map[int]int{}
+		for v := range active {
+			due[v] = true
+			need[v]++
+			most[v]++
+		}
+		if s.Kind == "overlap" {
+			obs := w.overlaps[i]
+			st.overlap = true
+			if obs != nil && obs.Reached {
+				st.overlapReached = true
+			}
+			for _, v := range s.BSet {
+				due[v] = true
+				most[v]++
+				if obs != nil && obs.ErrB == "" {
+					need[v]++ // the exported call reported success
+				}
+				if !active[v] {
+					st.overlapOtherSet = true
+				}
+			}
+		}
 		res := map[int]resolved{}
 		hasUnres, hasRes := false, false
-		for v := range active {
+		for v := range due {
 			res[v] = resolve(cur, identity{Key: v, Account: w.accountName(v)}, fallbackFR, c.FallbackGas)
 			if res[v].Unresolvable {
 				hasUnres = true
-			} else {
+			} else if active[v] {
 				hasRes = true
 			}
 		}
@@ -1458,7 +1574,7 @@ func judge(c *Case, w *world) ([]verdict, stats) {
 			for _, g := range entriesAt(r, i) {
 				st.regsChecked++
 				v, known := keyOfPub[g.Pubkey]
-				if !known || v >= maxValidators || !active[v] {
+				if !known || v >= maxValidators || !due[v] {
 					fail("unexpected-registration", "round at step %d (epoch %d): relay %d received a registration for %s, which is not a validator active in epoch %d", i, s.Epoch, r, short(g.Pubkey[:]), s.Epoch+1)
 					continue
 				}
@@ -1501,16 +1617,18 @@ func judge(c *Case, w *world) ([]verdict, stats) {
 					seenContents[[2]int{v, r}] = append(sc, content)
 				}
 			}
-			for v := range active {
+			for v := range due {
 				if _, ok := res[v].Relays[r]; !ok {
 					continue
 				}
 				switch {
-				case count[v] == 0 && signFailed[v]:
+				case count[v] == 0 && need[v] > 0 && signFailed[v]:
 					missingAt[v] = append(missingAt[v], r)
-				case count[v] == 0:
+				case count[v] < need[v] && s.Kind == "overlap":
+					fail(stopped("registrations", "missing-registration"), "overlap at step %d (epoch %d): relay %d received %d registration(s) for validator %d (%s account) although %d submissions that reported success asked for it (scheduled round for the validators active in epoch %d, held at relay %d: %v; exported SubmitValidatorRegistrations for validators %v)", i, s.Epoch, r, count[v], v, c.Validators[v].Kind, need[v], s.Epoch+1, s.HoldRelay, w.overlaps[i] != nil && w.overlaps[i].Reached, s.BSet)
+				case count[v] < need[v]:
 					fail(stopped("registrations", "missing-registration"), "round at step %d (epoch %d): relay %d (mode %q) received no registration for validator %d (%s account), whose resolved settings name that relay; masks: relays %v secondary %v sign %v", i, s.Epoch, r, at(s.RelayFail, r), v, c.Validators[v].Kind, s.RelayFail, s.SecFail, s.SignFail)
-				case count[v] > 1:
+				case count[v] > most[v]:
 					fail("duplicate-registration", "round at step %d: relay %d received %d registrations for validator %d", i, r, count[v], v)
 				}
 			}
@@ -1528,8 +1646,8 @@ func judge(c *Case, w *world) ([]verdict, stats) {
 
 		// secondary beacon nodes
 		demand := false
-		for v := range active {
-			if len(res[v].Relays) > 0 && !signFailed[v] {
+		for v := range due {
+			if need[v] > 0 && len(res[v].Relays) > 0 && !signFailed[v] {
 				demand = true
 			}
 		}
@@ -1551,7 +1669,7 @@ func judge(c *Case, w *world) ([]verdict, stats) {
 				}
 				continue
 			}
-			if len(calls) > 1 {
+			if len(calls) > 1 && !(s.Kind == "overlap" && len(calls) == 2) {
 				fail("secondary-duplicate-call", "round at step %d: secondary beacon node %d received %d submissions", i, n, len(calls))
 			}
 			count := map[int]int{}
@@ -1561,10 +1679,10 @@ func judge(c *Case, w *world) ([]verdict, stats) {
 				}
 				for _, g := range call.Regs {
 					v, known := keyOfPub[g.Pubkey]
-					if known && v < maxValidators && active[v] && res[v].Unresolvable {
+					if known && v < maxValidators && due[v] && res[v].Unresolvable {
 						continue
 					}
-					if !known || v >= maxValidators || !active[v] || len(res[v].Relays) == 0 {
+					if !known || v >= maxValidators || !due[v] || len(res[v].Relays) == 0 {
 						fail("secondary-unexpected-registration", "round at step %d: secondary beacon node %d received a registration for %s, which is not an active validator with relays", i, n, short(g.Pubkey[:]))
 						continue
 					}
@@ -1583,14 +1701,14 @@ func judge(c *Case, w *world) ([]verdict, stats) {
 					}
 				}
 			}
-			for v := range active {
+			for v := range due {
 				if len(res[v].Relays) == 0 {
 					continue
 				}
-				if count[v] == 0 && !signFailed[v] {
+				if count[v] < need[v] && !signFailed[v] {
 					fail(stopped("registrations", "secondary-missing-registration"), "round at step %d: secondary beacon node %d received no registration for validator %d", i, n, v)
 				}
-				if count[v] > 1 {
+				if count[v] > most[v] {
 					fail("secondary-duplicate-registration", "round at step %d: secondary beacon node %d received %d registrations for validator %d", i, n, count[v], v)
 				}
 			}
@@ -1663,7 +1781,7 @@ func check(t ev.TB, c *Case) {
 		t.Fatalf("harness problem: %v", err)
 	}
 	verdicts, st := judge(c, w)
-	nontrivial := st.changeRounds >= 1 || st.failMask || st.earlyThenNormal
+	nontrivial := st.changeRounds >= 1 || st.failMask || st.earlyThenNormal || st.overlapReached
 	var labels []string
 	add := func(b bool, l string) {
 		if b {
@@ -1688,6 +1806,9 @@ func check(t ev.TB, c *Case) {
 	add(st.providerErr, "round-with-accounts-provider-error")
 	add(st.earlyThenNormal, "early-return-round-followed-by-normal-round")
 	add(st.direct, "round-through-exported-SubmitValidatorRegistrations")
+	add(st.overlap, "overlap-step")
+	add(st.overlapReached, "exported-call-while-scheduled-round-in-flight")
+	add(st.overlapReached && st.overlapOtherSet, "overlapping-call-names-validators-outside-the-round")
 	add(st.legacy, "legacy-config")
 	add(st.unresolvableNextToOthers, "unresolvable-validator-next-to-resolvable-ones")
 	add(st.fetchFail, "config-fetch-failure")
